@@ -1924,17 +1924,20 @@ impl SignedDuration {
             }),
             Err(err) => {
                 let dur = err.duration();
-                let dur =
-                    SignedDuration::try_from(dur).with_context(|| {
+                // Negate the components instead of converting to a signed
+                // duration first: the magnitude of the minimum signed
+                // duration does not fit in a (positive) signed duration.
+                let secs = i64::try_from(-i128::from(dur.as_secs()))
+                    .map_err(|_| {
                         err!(
                         "unsigned duration {dur:?} for system time before \
                          Unix epoch overflowed signed duration"
                     )
                     })?;
-                dur.checked_neg().ok_or_else(|| {
-                    err!("negating duration {dur:?} from before the Unix epoch \
-                     overflowed signed duration")
-                })
+                // OK because the number of nanoseconds in a `Duration` is
+                // always less than one second.
+                let nanos = -(dur.subsec_nanos() as i32);
+                Ok(SignedDuration::new(secs, nanos))
             }
         }
     }
